@@ -12,7 +12,8 @@ EXPLANATION = ("Laws proved by finite case analysis over the tables generated fr
                "lookups on all 25 pairs + junk arguments; laws re-checked exhaustively on the real functions.")
 ASSUMPTIONS = ["translator reads the dict literals and the guard shape of prod_mwp/sum_mwp faithfully (validated by the 25+25+junk comparison)"]
 
-JUNK = ["", "O", "M", "0", "mm", "x", " i", "i ", "inf", "oo", "P", "W", "I", "None", "∞"]
+JUNK = (["", "O", "M", "0", "x", " i", "i ", "inf", "P", "W", "I", "None", "∞", "omw", "mwp", "omwpi", "mo ", "o m"] +
+        [a + b for a in "omwpi" for b in "omwpi"])      # every two-letter string over the coefficients (concatenated-key slips)
 NONSTR = [None, 0, 1, 2.5, ("o",), True]
 UNHASH = [["o"], {"o": 1}]
 
@@ -41,9 +42,11 @@ def run(ctx):
     order = {k: n for n, k in enumerate(K)}
     if list(S.KEYS) != K:
         fail("order: KEYS is not o<m<w<p<i", {"KEYS": list(S.KEYS)}, K, list(S.KEYS))
+    pairs_before = {}
     for a, b in itertools.product(K, K):
         ev += 1
         pa, pb, sa, sb = P(a, b), P(b, a), A(a, b), A(b, a)
+        pairs_before[("prod", a, b)], pairs_before[("sum", a, b)] = pa, sa
         for nm, r in (("prod", pa), ("sum", sa)):
             if r[0] != "ok" or r[1] not in K:
                 fail(f"total: {nm}({a},{b}) does not return a coefficient", {"op": nm, "args": [a, b]}, "a key", r)
@@ -89,13 +92,42 @@ def run(ctx):
                     r = f(x, y)
                     if r[0] != "raise":
                         fail(f"nonkey: {nm} returns a value for a non-coefficient argument", {"op": nm, "args": [repr(x), repr(y)]}, "raise", r)
+    # junk x junk (two different non-coefficients)
+    for x, y in itertools.product(JUNK + NONSTR, JUNK + NONSTR):
+        for nm, f in (("prod", P), ("sum", A)):
+            ev += 1; nj += 1
+            r = f(x, y)
+            if r[0] != "raise":
+                fail(f"nonkey: {nm} returns a value for a non-coefficient argument", {"op": nm, "args": [repr(x), repr(y)]}, "raise", r)
+    # history: the laws hold whatever else of the module was called before (nothing the other public functions do may
+    # change the tables or the key list)
+    import inspect
+    others = [(n, f) for n, f in vars(S).items() if callable(f) and not n.startswith("_") and getattr(f, "__module__", None) == S.__name__
+              and n not in ("prod_mwp", "sum_mwp")]
+    hist_args = [(["w", "m", "w"],), (["p"],), ([],), (["i", "o"],), (["m", "m"],), (list(K),), (list(reversed(K)),), ("wm",), (("o", "p"),)]
+    ncalls = 0
+    for n_, f_ in others:
+        for args in hist_args:
+            ncalls += 1
+            try:
+                f_(*[list(a) if isinstance(a, list) else a for a in args])
+            except Exception:
+                pass
+    if list(S.KEYS) != K:
+        fail("history: KEYS changed after calls to the module's other public functions", {"calls": [n for n, _ in others]}, K, list(S.KEYS))
+    for a, b in itertools.product(K, K):
+        ev += 1
+        for nm, f, ref in (("prod", P, pairs_before[("prod", a, b)]), ("sum", A, pairs_before[("sum", a, b)])):
+            r = f(a, b)
+            if r != ref:
+                fail(f"history: {nm}({a},{b}) changes after calls to the module's other public functions", {"op": nm, "args": [a, b], "calls": [n for n, _ in others]}, ref, r)
     samples.append({"pair": ["w", "p"], "prod": P("w", "p"), "sum": A("w", "p")})
     samples.append({"junk": ["oo", "m"], "prod": P("oo", "m")})
 
     # correspondence: generated lookups (Coq) vs real functions on strings
     ncorr = 0
     if ctx.coq_ok:
-        strs = K + JUNK
+        strs = K + ["", "O", "M", "0", "mm", "x", " i", "i ", "inf", "oo", "P", "W", "I", "None", "om"]     # (a 4600-case literal takes minutes to type-check)
         strs = [s for s in strs if all(32 <= ord(c) < 127 for c in s)]
         cases = []
         for a, b in itertools.product(strs, strs):
@@ -121,7 +153,7 @@ def run(ctx):
     stats = {"evaluations": ev + ncorr, "distinct_nontrivial": 25 + 125 + nj,
              "rule": "exhaustive: 25 pairs, 125 triples on the real prod_mwp/sum_mwp; junk args (strings, None, ints, unhashables) x keys both positions; "
                      "non-trivial = every case (finite domain enumerated completely)",
-             "samples": samples, "exhaustive": True, "correspondence_cases": ncorr}
+             "samples": samples, "exhaustive": True, "correspondence_cases": ncorr, "history_calls": ncalls, "other_public_functions": [n for n, _ in others]}
     return {"failing": failing, "corr_mismatch": mism, "stats": stats}
 
 
